@@ -457,7 +457,8 @@ Proof.
   - apply (is_derive_const (V := R_NormedModule) 0 x).
   - apply (is_derive_plus (V := R_NormedModule)); [|apply IH].
     cbn [nmul RNum]. rewrite nofnat_R.
-    auto_derive; [exact I|]. cbn [Nat.pred]. rewrite S_INR. ring.
+    auto_derive; [exact I|]. cbn [Nat.pred].
+    change (match i with 0%nat => 1 | S _ => INR i + 1 end) with (INR (S i)). ring.
 Qed.
 
 Lemma eval_simple_is_derive (p : spoly R) x :
